@@ -75,34 +75,6 @@ theorem Ext.apply (w : World) (j : Nat) (op : AOp) : Ext w (w.apply j op).1 (w.a
       simp [projEvs, projOuts_tag_other (Ne.symm hij)]
   · exact Ext.refl w
 
-theorem Ext.effects_cascade (fuel : Nat) :
-    (∀ w outs, Ext w (World.effects fuel w outs).1 (World.effects fuel w outs).2) ∧
-    (∀ w kids, Ext w (World.cascade fuel w kids).1 (World.cascade fuel w kids).2) := by
-  induction fuel with
-  | zero => exact ⟨fun w _ => by simp [World.effects]; exact Ext.refl w, fun w _ => by simp [World.cascade]; exact Ext.refl w⟩
-  | succ n ih =>
-    obtain ⟨ihe, ihc⟩ := ih
-    constructor
-    · intro w outs
-      cases outs with
-      | nil => simp [World.effects]; exact Ext.refl w
-      | cons o rest =>
-        obtain ⟨src, o⟩ := o
-        simp only [World.effects]
-        refine Ext.trans ?_ (ihe _ rest)
-        split
-        · exact Ext.apply w _ _
-        · exact ihc w _
-        · exact Ext.apply w _ _
-        · exact Ext.apply w _ _
-        · exact Ext.refl w
-    · intro w kids
-      cases kids with
-      | nil => simp [World.cascade]; exact Ext.refl w
-      | cons c cs =>
-        simp only [World.cascade]
-        exact Ext.trans (Ext.trans (Ext.apply w c .treeTaken) (ihe _ _)) (ihc _ cs)
-
 theorem get_tables (w : World) (op : Op) (outs : List WOut) (i : Nat) : (w.tables op outs).get i = w.get i := by
   unfold World.tables
   split <;> (try split) <;> rfl
@@ -123,6 +95,48 @@ theorem get_addSlot (w : World) (a i : Nat) (h : a = w.actors.length) :
       cases hk : i - w.actors.length with
       | zero => exact absurd hk h2
       | succ k => simp
+
+theorem Ext.effects_cascade (fuel : Nat) :
+    (∀ w outs, Ext w (World.effects fuel w outs).1 (World.effects fuel w outs).2) ∧
+    (∀ w kids, Ext w (World.cascade fuel w kids).1 (World.cascade fuel w kids).2) := by
+  induction fuel with
+  | zero => exact ⟨fun w _ => by simp [World.effects]; exact Ext.refl w, fun w _ => by simp [World.cascade]; exact Ext.refl w⟩
+  | succ n ih =>
+    obtain ⟨ihe, ihc⟩ := ih
+    constructor
+    · intro w outs
+      cases outs with
+      | nil => simp [World.effects]; exact Ext.refl w
+      | cons o rest =>
+        obtain ⟨src, o⟩ := o
+        simp only [World.effects]
+        refine Ext.trans ?_ (ihe _ rest)
+        split
+        · exact Ext.apply w _ _
+        · exact ihc w _
+        · exact Ext.apply w _ _
+        · exact Ext.apply w _ _
+        · -- a child spawned from a callback: the slot (if new) is an untouched `Actor.init`
+          rename_i c loc
+          have hslot : Ext w (if c = w.actors.length then ({ w with actors := w.actors ++ [Actor.init c] } : World) else w) [] := by
+            intro i
+            refine ⟨[], ?_⟩
+            simp only [Actor.run, projEvs_nil]
+            split
+            · rename_i h; rw [get_addSlot w c i h]
+            · rfl
+          have := Ext.trans hslot (Ext.apply _ c (.spawnInstant (some src) none true loc))
+          simpa using this
+        · split
+          · exact Ext.apply w _ _
+          · exact Ext.trans (Ext.apply w _ _) (Ext.apply _ _ _)
+        · exact Ext.refl w
+    · intro w kids
+      cases kids with
+      | nil => simp [World.cascade]; exact Ext.refl w
+      | cons c cs =>
+        simp only [World.cascade]
+        exact Ext.trans (Ext.trans (Ext.apply w c .treeTaken) (ihe _ _)) (ihc _ cs)
 
 /-- One harness op (not `case`) extends the world. -/
 theorem Ext.step (w : World) (op : Op) (hc : op ≠ .case) :
